@@ -50,7 +50,7 @@ var R = hx.NewRecorder("C09", "cases = (template over the documented fields, sig
 var cv = rsm2.Std
 
 func TestMain(m *testing.M) {
-	R.Require("cert/sm2/alg_default", "cert/rsa/alg_default", "cert/ecdsa/alg_default", "cert/sm2/SM2-SHA1", "cert/sm2/SM2-SHA256", "csr/sm2/alg_default", "csr/ecdsa/alg_default", "csr/rsa/alg_default",
+	R.Require("reused_unparsed_parent", "cert/sm2/alg_default", "cert/rsa/alg_default", "cert/ecdsa/alg_default", "cert/sm2/SM2-SHA1", "cert/sm2/SM2-SHA256", "csr/sm2/alg_default", "csr/ecdsa/alg_default", "csr/rsa/alg_default",
 		"crl/sm2", "revlist/sm2/alg_default", "revlist/sm2/SM2-SHA256", "serial_negative", "extra_ext_override", "mutant_tbs_or_sig", "other_key", "sig_reencoded", "mutant_value_level", "csr_extreq_attr", "issued_under_parsed_ca", "ca_subject:multivalue_rdn", "ca_subject:extra_attr")
 	hx.Main(m, R)
 }
@@ -1079,6 +1079,59 @@ func TestC09_Replay(t *testing.T) {
 // Issuing under a PARSED CA certificate (the normal way a CA is held): the issued certificate's issuer must be the CA's
 // subject byte for byte - also when that subject has attributes without a struct field, several values in one RDN, or
 // an encoding another tool chose - and the pair must chain.
+// One long-lived, never parsed Certificate value serves as template and as parent for a series of issuances, with its
+// Subject edited between them (a CA being renamed in a bulk-issuance tool): every certificate carries the names that the
+// objects hold at the time of the call.
+func TestC09_ReusedUnparsedParent(t *testing.T) {
+	initKeys(t)
+	hx.Check(t, hx.N(100, 1500), func(t *rapid.T) {
+		ck := gen.KeyPair(hx.Root()).Draw(t, "cakey")
+		caPriv := sm2x.Priv(ck)
+		parent := &gx.Certificate{SerialNumber: big.NewInt(1), NotBefore: time.Unix(1600000000, 0), NotAfter: time.Unix(1900000000, 0),
+			BasicConstraintsValid: true, IsCA: true, KeyUsage: gx.KeyUsageCertSign, SignatureAlgorithm: gx.SM2WithSM3}
+		lk := gen.OtherKey(t, hx.Root(), "leafkey", ck.D)
+		var hist []string
+		for round := 0; round < rapid.IntRange(2, 4).Draw(t, "rounds"); round++ {
+			name := nameGen().Draw(t, "caname")
+			name.CommonName = fmt.Sprintf("ca generation %d %s", round, name.CommonName)
+			parent.Subject = name
+			wantName, err := asn1.Marshal(name.ToRDNSequence())
+			if err != nil {
+				t.Fatalf("marshal name: %v", err)
+			}
+			if rapid.Bool().Draw(t, "selfsigned") {
+				der, err := gx.CreateCertificate(parent, parent, &caPriv.PublicKey, caPriv)
+				if err != nil {
+					t.Fatalf("history %v: CreateCertificate(self-signed): %v", hist, err)
+				}
+				c, err := gx.ParseCertificate(der)
+				if err != nil {
+					t.Fatalf("parse: %v", err)
+				}
+				hist = append(hist, fmt.Sprintf("self(%d)", round))
+				if !bytes.Equal(c.RawSubject, wantName) || !bytes.Equal(c.RawIssuer, wantName) {
+					t.Fatalf("history %v: the template now says %q, the certificate's subject/issuer are\n %x\n %x\n want %x", hist, name.CommonName, c.RawSubject, c.RawIssuer, wantName)
+				}
+			} else {
+				leafTpl := &gx.Certificate{SerialNumber: big.NewInt(int64(10 + round)), Subject: pkix.Name{CommonName: "leaf"}, NotBefore: time.Unix(1600000000, 0), NotAfter: time.Unix(1900000000, 0), KeyUsage: gx.KeyUsageDigitalSignature}
+				der, err := gx.CreateCertificate(leafTpl, parent, sm2x.Pub(lk.Pub), caPriv)
+				if err != nil {
+					t.Fatalf("history %v: CreateCertificate(leaf): %v", hist, err)
+				}
+				c, err := gx.ParseCertificate(der)
+				if err != nil {
+					t.Fatalf("parse: %v", err)
+				}
+				hist = append(hist, fmt.Sprintf("leaf(%d)", round))
+				if !bytes.Equal(c.RawIssuer, wantName) {
+					t.Fatalf("history %v: the parent object now says %q, the issued certificate names its issuer\n %x\n want %x", hist, name.CommonName, c.RawIssuer, wantName)
+				}
+			}
+		}
+		R.Case(true, hx.HashKey("reusedparent", fmt.Sprint(hist), ck.D.Bytes()), "reused_unparsed_parent")
+	})
+}
+
 func TestC09_IssuedUnderParsedCA(t *testing.T) {
 	initKeys(t)
 	hx.Check(t, hx.N(150, 2500), func(t *rapid.T) {
